@@ -17,7 +17,7 @@ WorldCfg cfg_for(const std::string &p) {
     else if (p == "C16") { c.judged = [](const std::string &op) { return in(op, {"patch_apply"}); }; }
     else if (p == "C17") { c.judge_followup = true; c.judged = [](const std::string &op) { return in(op, {"patch_gen"}); }; }
     else if (p == "C18") { c.judge_followup = true; c.judged = [](const std::string &op) { return in(op, {"merge_apply", "merge_gen"}); }; }
-    else if (p == "C19") { c.judge_followup = true; c.judged = [](const std::string &op) { return in(op, {"sort", "twinprint"}); }; }
+    else if (p == "C19") { c.judge_followup = true; c.judged = [](const std::string &op) { return in(op, {"sort", "twinprint"}); }; c.structure_only_utils = true; }
     else if (p == "C08") { c.judge_values = true; c.fault_mode = true; c.judged = [](const std::string &) { return false; }; }
     else if (p == "C20") { c.judge_values = false; c.log_mismatch = true; c.judged = [](const std::string &) { return true; }; }
     else c.judged = [](const std::string &) { return true; };
